@@ -67,6 +67,12 @@ def cases(rng, tier):
             # setitem_field on a top-level RecordArray
             w = G.gen_array(rng, depth=rng.choice([1, 2]), toplen=len(vals) if rng.random() < 0.9 else len(vals) + 1,
                             canonical_too=False, type_kw=dict(allow_union=False))
+            if rng.random() < 0.4:
+                # the position variant setitem_field(where:int, what): before the first, between, at and beyond the last field
+                where = rng.choice([0, 0, 1, 1, 2, 3, 5, -1])
+                out.append(C.Case('c%d' % i, 'setfieldat', [str(where)], [G.sx(lay), G.sx(w['layout'])],
+                                  dict(nontrivial=len(vals) > 0, tags=dict(op='setfieldat', where=where))))
+                continue
             out.append(C.Case('c%d' % i, 'setfield', ['z'], [G.sx(lay), G.sx(w['layout'])],
                               dict(nontrivial=len(vals) > 0, tags=dict(op='setfield'))))
             continue
